@@ -187,6 +187,18 @@ Proof.
         -- intros [s [n' [E [_ [_ H]]]]]. apply Core. exists s, n'. split; [exact E|exact H].
 Qed.
 
+
+(* C03 on this fragment: without DOTMATCH a name starting with `.` is matched only by a pattern starting with a written `.` *)
+Lemma flat_leading_dot : forall ts n',
+  Den false true ts (46%N :: n') -> exists c r, (ts = TLit c :: r \/ ts = TEsc c :: r) /\ c = 46%N.
+Proof.
+  intros ts n'. destruct ts as [|t r]; cbn [Den]; [discriminate|]. destruct t as [c|c| |].
+  - intros [s0 [E _]]. inversion E; subst. exists 46%N, r. split; [left; reflexivity|reflexivity].
+  - intros [s0 [E _]]. inversion E; subst. exists 46%N, r. split; [right; reflexivity|reflexivity].
+  - intros [x [s0 [E [Hf _]]]]. inversion E; subst. exfalso. apply (Hf eq_refl eq_refl). reflexivity.
+  - intros [a [s0 [E [_ [Hd _]]]]]. exfalso. apply (Hd eq_refl eq_refl n'). reflexivity.
+Qed.
+
 (* ---- (1) the parser model prints exactly [emit] ---- *)
 From WC.Proofs Require Import C09Parse.
 Open Scope Z_scope.
